@@ -230,16 +230,18 @@ def cases():
                         if not (curves == 'single_same' and not ip):
                             continue
                     ni_cfgs.append((iso, curves, ip, xb))
-    for iso, curves, ip, xb in ni_cfgs:
+    ni_cfgs = [c + (None,) for c in ni_cfgs] + [(False, 'multi', False, 'weight', ('exponential', 2)), (False, 'multi', False, 'weight', ('logarithmic', 2)),
+                                                 (False, 'single_other', False, 'weight', ('polynomial', 2))]
+    for iso, curves, ip, xb, prog in ni_cfgs:
         for n in ns:
             mode = 'temp' if (iso and curves == 'multi') else 'vac'
             log = []
 
-            def run(iso=iso, curves=curves, ip=ip, xb=xb, n=n, mode=mode, log=log):
+            def run(iso=iso, curves=curves, ip=ip, xb=xb, n=n, mode=mode, log=log, prog=prog):
                 del log[:]
                 m, _ = sym_mixture()
                 p = Pervaporation(pv.Membrane(name='symmem'), m)
-                cd, _ = sym_conditions(mode, xb, None)
+                cd, _ = sym_conditions(mode, xb, prog)
                 cset = sym_curve_set(m, 2 if curves == 'multi' else 1, sameT=(curves == 'single_same'), xb=xb)
                 ipv = (sym_permeance('ip1', 0.06, 'SI')[0], sym_permeance('ip2', 0.0007, 'GPU')[0]) if ip else None
                 with patch_attr(Pervaporation, 'calculate_partial_fluxes', make_solve_stub(shadowJ)), \
@@ -251,7 +253,7 @@ def cases():
                              precision=V('prec', 5e-5), calculation_type='NRTL', initial_permeances=ipv,
                              n_first=1, m_first=1, n_second=2, m_second=0, include_zero=True)
             _, mt = sym_mixture()
-            _, cdt = sym_conditions(mode, xb, None)
+            _, cdt = sym_conditions(mode, xb, prog)
             nb = 2 if curves == 'multi' else 1
             single = 'None' if curves == 'multi' else ('(Some T0)' if curves == 'single_same' else '(Some Tc0)')
             ipt = '(Some (Build_Permeance N ip1 SI, Build_Permeance N ip2 GPU))' if ip else 'None'
@@ -271,7 +273,7 @@ def cases():
                 if log != want:
                     raise TraceEscape('find_best_fit was requested with %r, the model expects %r' % (log, want))
                 return '(%s, (%s, %s))' % (rows_text(em, pm, n), fit_text(em, pm.permeance_fits[0]), fit_text(em, pm.permeance_fits[1]))
-            cs.append(Case('nonideal_%s_%s_%s_%s_n%d' % ('iso' if iso else 'noniso', curves, 'ip' if ip else 'noip', xb[0], n),
+            cs.append(Case('nonideal_%s_%s_%s_%s%s_n%d' % ('iso' if iso else 'noniso', curves, 'ip' if ip else 'noip', xb[0], '' if prog is None else '_' + prog[0][:4], n),
                            call, run, result,
                            binders='(Jf : SolveArgs N -> num N * num N) (EaV : nat -> num N)', tactic='bridge_process'))
     return cs
